@@ -198,3 +198,47 @@ def rejected_acquire_changes_nothing(ctx):
         ctx.ob(f, x, False, f'{kind} of the semaphore bookkeeping on a path that ends in NoResourcesAvailable: a rejected acquire must leave no trace')
     ctx.ob(f, 'paths to `raise NoResourcesAvailable` leave the bookkeeping untouched', not bad, f'{len(on_path)} statements/tests lie on those paths')
     ctx.ob(init, 'defaultdict attributes of the semaphore', True, f'{sorted(dd)}', trivial=True)
+
+
+@rule('C12.h', ['C12', 'C13', 'C04'], floor=1)
+def nothing_decided_before_a_wait_is_used_after_it(ctx):
+    """A Condition.wait() gives the lock up: whatever a function read from the shared state
+    before it went to sleep may be false when it wakes.  In every function of the package
+    that waits on a condition, no local that was computed from self.<state> before the wait
+    is read after it (on a path through the wait without being recomputed).  In
+    SlidingWindowSemaphore.acquire a "first time this tag is seen" decision taken before the
+    wait and applied after it rewinds the tag's lowest unreleased token: the token of the
+    woken acquirer is then pending forever and its permit never returns."""
+    n = 0
+    for f in ctx.p.all_functions():
+        waits = [c for c in own_calls(f.node) if isinstance(c.func, ast.Attribute) and c.func.attr == 'wait'
+                 and any(k in norm(c.func.value).lower() for k in ('cond', 'condition'))]
+        if not waits:
+            continue
+        g = ctx.cfg(f)
+        wn = [x for c in waits for x in g.nodes_of(c)]
+        n += 1
+        bad = []
+        for a in own_nodes(f.node):
+            if not (isinstance(a, ast.Assign) and len(a.targets) == 1 and isinstance(a.targets[0], ast.Name)):
+                continue
+            v = a.targets[0].id
+            if not any(isinstance(x, ast.Attribute) and isinstance(x.value, ast.Name) and x.value.id == 'self' and x.attr not in ('_condition', '_cond', '_lock')
+                       for x in ast.walk(a.value)):
+                continue
+            an = g.nodes_of(a)
+            # other definitions of v kill the stale value
+            kills = [x for o in own_nodes(f.node) if o is not a and isinstance(o, (ast.Assign, ast.AugAssign))
+                     and any(isinstance(t, ast.Name) and t.id == v for t in (o.targets if isinstance(o, ast.Assign) else [o.target])) for x in g.nodes_of(o)]
+            to_wait = g.reach(an, avoid=kills, labels=g.NORMAL)
+            hit = [w for w in wn if w in to_wait]
+            if not hit:
+                continue
+            after = g.reach(hit, avoid=kills + an, labels=g.NORMAL)
+            for u in own_nodes(f.node):
+                if isinstance(u, ast.Name) and u.id == v and isinstance(u.ctx, ast.Load) and any(x in after for x in g.nodes_of(u)) and not any(x in wn for x in g.nodes_of(u)):
+                    bad.append(f'{v} = {norm(a.value)[:50]} (read again at: {short(u._parent, 50)})')
+                    break
+        ctx.ob(f, f'{f.qualname}: no state read before {norm(waits[0].func)}() is used after it', not bad,
+               f'stale across the wait: {bad}; the lock is released while waiting, so the decision must be re-made after waking')
+    ctx.need(n >= 1, 'no function waits on a condition any more: re-confirm C12.c (who blocks, who wakes) and retire this rule')
